@@ -3,3 +3,4 @@ import PdeVerif.Props.C09
 import PdeVerif.Props.C02
 import PdeVerif.Props.C01
 import PdeVerif.Props.C05
+import PdeVerif.Props.C12
